@@ -54,7 +54,7 @@ type Obj struct {
 	F2   string `json:"f2"`
 	Own  string `json:"own"` // me | othername | otherns | partial | none
 	Pol  string `json:"pol"` // live resource-policy annotation: none | keep | other
-	Dig  string `json:"dig"`  // digest of the whole object minus resourceVersion (byte-identity checks)
+	Dig  string `json:"dig"` // digest of the whole object minus resourceVersion (byte-identity checks)
 }
 
 // State is the projected abstract state logged with every event.
